@@ -226,9 +226,23 @@ def _canon_records(records: list) -> list:
     return out
 
 
+_READ_CLASSES = ("open_r", "stat", "listdir", "scandir")
+
+
 def _plan_apply(node: Any, plan: Optional[list]) -> None:
     if plan is not None:
         node.disk.plan = [dict(p) for p in plan]
+        if any(p.get("cls") in _READ_CLASSES for p in plan) and not node.disk.journal_reads:
+            # read-side faults only fire on journalled reads: switch that on for this op
+            node.disk.journal_reads = True
+            node._jr_restore = True
+
+
+def _plan_clear(node: Any) -> None:
+    node.disk.plan = []
+    if getattr(node, "_jr_restore", False):
+        node.disk.journal_reads = False
+        node._jr_restore = False
 
 
 # --------------------------------------------------------------------------
@@ -347,7 +361,7 @@ def op_lint_paths(
     finally:
         if restore:
             restore()
-        node.disk.plan = []
+        _plan_clear(node)
     out["mon"] = _mon_take()
     if export_shadow:
         # durability state of the simulated disk at the end of the run / at the crash point
@@ -421,7 +435,7 @@ def op_cli(
     finally:
         if restore:
             restore()
-        node.disk.plan = []
+        _plan_clear(node)
         if node.disk.dead:
             out["crashed"] = node.disk.death
     out["mon"] = _mon_take()
